@@ -17,6 +17,15 @@ from core import hexf
 
 sys.path.insert(0, os.path.join(os.path.dirname(os.path.dirname(os.path.abspath(__file__))), "oracle"))
 
+META = dict(
+    level="model_checking",
+    technique="regime-graph exploration: exhaustive lattice + branch-path-signature bisection to adjacent doubles, mpmath definition oracle on every evaluated double",
+    text="Every one-argument function is evaluated on a finite cover of its domain (log lattice, literals harvested from the source, rationals) and, around every change of evaluation regime located by bisecting sancov branch-path signatures down to adjacent doubles, on all doubles within +-W ulp on both sides; each value is compared with an independent >=50-digit mpmath transcription of the defining formula. Exhaustive within lattice density K and ulp width W; says nothing about doubles strictly between lattice points inside one regime.",
+    note="trusted: mpmath polylog/clsin/log, clang sancov instrumentation (only used to locate boundaries, never compared to a baseline), tolerance rule of DESIGN 2.4",
+    design_ref="3/C01")
+
+HARNESSES = [(("fx", "cov", ["fx.cpp"]), {})]
+
 LOOPF = ["F1C", "F2C", "F3C", "F4C", "F1N", "F2N", "F3N", "F4N", "G3", "G4",
          "f_PS", "f_S", "f_sferm", "f_CSl", "F1", "F1t", "F2", "F3"]
 SPECIAL = ["dilog", "clausen_2"]
